@@ -72,3 +72,56 @@ FILTERS = {
     "suffix": ssj.SuffixFilter,
     "overlap": ssj.OverlapFilter,
 }
+
+
+# ---------------------------------------------------------------- a second library instance
+
+import contextlib  # noqa: E402
+import importlib  # noqa: E402
+
+JOIN_NAMES = {"JACCARD": "jaccard_join", "COSINE": "cosine_join", "DICE": "dice_join",
+              "OVERLAP_COEFFICIENT": "overlap_coefficient_join", "OVERLAP": "overlap_join",
+              "EDIT_DISTANCE": "edit_distance_join"}
+FILTER_NAMES = {"size": "SizeFilter", "prefix": "PrefixFilter", "position": "PositionFilter",
+                "suffix": "SuffixFilter", "overlap": "OverlapFilter"}
+
+
+def _is_pkg(k):
+    return k == "py_stringsimjoin" or k.startswith("py_stringsimjoin.")
+
+
+class FreshLibrary(object):
+    """A freshly imported, independent instance of py_stringsimjoin (its own module-level and
+    class-level state), for 'the same call in isolation' comparisons.  While `active()` the
+    fresh modules replace the main ones in sys.modules, because the public wrappers import
+    their *_py implementations lazily at call time."""
+
+    def __init__(self):
+        saved = dict((k, v) for k, v in sys.modules.items() if _is_pkg(k))
+        for k in saved:
+            del sys.modules[k]
+        try:
+            m = importlib.import_module("py_stringsimjoin")
+            m.__use_cython__ = False
+            for n in ("jaccard_join_py", "cosine_join_py", "dice_join_py", "overlap_join_py",
+                      "overlap_coefficient_join_py", "edit_distance_join_py"):
+                importlib.import_module("py_stringsimjoin.join." + n)
+            self.mods = dict((k, v) for k, v in sys.modules.items() if _is_pkg(k))
+            self.ssj = m
+        finally:
+            for k in [k for k in sys.modules if _is_pkg(k)]:
+                del sys.modules[k]
+            sys.modules.update(saved)
+
+    @contextlib.contextmanager
+    def active(self):
+        saved = dict((k, v) for k, v in sys.modules.items() if _is_pkg(k))
+        for k in saved:
+            del sys.modules[k]
+        sys.modules.update(self.mods)
+        try:
+            yield self.ssj
+        finally:
+            for k in [k for k in sys.modules if _is_pkg(k)]:
+                del sys.modules[k]
+            sys.modules.update(saved)
